@@ -303,8 +303,15 @@ fn case(rng: &mut Rng, table: &Table, st: &mut Stats) {
     st.class(tree.shape_key(table));
     let nested = text.matches(" if ").count() + text.matches(")if").count();
     st.bump(&format!("piecewise_nesting_{}", nested.min(3)));
-    let deep = rng.chance(1, 3);
+    let how = rng.below(4);
+    let deep = how == 1;
     let d = catch(|| -> Result<exmex::FlatExVal<i32, f64>, String> {
+        if how >= 2 {
+            // parsed directly as a deep expression: several operators share one nesting level
+            let dd = exmex::DeepEx::<Val<i32, f64>, exmex::ValOpsFactory<i32, f64>, exmex::ValMatcher>::parse(&text).map_err(|e| format!("parse: {}", e.msg()))?;
+            let dd = dd.partial(wrt).map_err(|e| e.msg().to_string())?;
+            return exmex::FlatExVal::<i32, f64>::from_deepex(dd).map_err(|e| e.msg().to_string());
+        }
         let e = exmex::parse_val::<i32, f64>(&text).map_err(|e| format!("parse: {}", e.msg()))?;
         if deep {
             let dd = e.to_deepex().map_err(|e| e.msg().to_string())?.partial(wrt).map_err(|e| e.msg().to_string())?;
@@ -378,12 +385,13 @@ fn case(rng: &mut Rng, table: &Table, st: &mut Stats) {
             Ok(Ok(v)) => to_f(v),
             _ => None,
         };
+        let via = ["FlatExVal::partial", "flat->deep->partial", "DeepEx::parse->partial", "DeepEx::parse->partial"][how];
         let ok = gotf.map(|g| close(g, want.d, mag, 1e-9)).unwrap_or(false);
         if !ok {
             st.violation(
                 format!("value|{text}|d{}", vars[wrt]),
                 text.len(),
-                json!({"kind": "val-derivative-value", "text": text, "wrt": vars[wrt], "variables": vars, "point": p, "got": format!("{got:?}"), "derivative_of_the_selected_branch": want.d, "derivative_text": d.unparse(), "via": if deep {"DeepEx"} else {"FlatExVal"}}),
+                json!({"kind": "val-derivative-value", "text": text, "wrt": vars[wrt], "variables": vars, "point": p, "got": format!("{got:?}"), "derivative_of_the_selected_branch": want.d, "derivative_text": d.unparse(), "via": via}),
             );
             return;
         }
